@@ -355,7 +355,29 @@ def verylong_cases(draw, tier, kind):
     return {'formula': f, 'vars': ['x'], 'trace': {'x': draw(st.lists(vals, min_size=n, max_size=n))}, 'kind': kind}
 
 
+@st.composite
+def giant_sign_cases(draw, tier):
+    """Windows of 200..1100 samples (around 256, 512, 1024), lower bound 0 or not, on mostly flat traces with isolated extreme samples."""
+    from ..common import spiky_trace, GIANT_WIDTHS
+    kind = draw(st.sampled_from(['dt_off', 'dt_off', 'dt_on']))
+    x = ('var', 'x')
+    pr = ('pred', draw(st.sampled_from(['>=', '>', '<=', '<'])), x, ('const', draw(st.sampled_from([0.0, 1.0, 3.0, 0.5]))))
+    width = draw(st.sampled_from(GIANT_WIDTHS))
+    a = draw(st.sampled_from([0, 0, 1, 17, 100, 300]))
+    b = a + width
+    ops = ['once', 'historically'] + (['eventually', 'always'] if kind == 'dt_off' else [])
+    f = ('tun', draw(st.sampled_from(ops)), a, b, pr)
+    if draw(st.booleans()):
+        f = ('un', 'not', f)
+    if draw(st.integers(0, 2)) == 0:
+        f = ('bin', draw(st.sampled_from(['and', 'or', 'implies'])), f, ('tun', draw(st.sampled_from(['once', 'historically'])), 0, draw(st.integers(250, 260)), ('un', 'not', pr)))
+    n = draw(st.sampled_from([1, max(1, a), a + 2, b, b + 1, b + 2, b + 10, b + 200, b + 500, 2 * b + 5]))
+    tr = draw(spiky_trace(['x'], n))
+    return {'formula': f, 'vars': ['x'], 'trace': tr, 'kind': kind}
+
+
 LANES = [
+    Lane('sign_giant', giant_sign_cases, check, 60, 600, None),
     Lane('sign_huge_on', lambda tier: huge_cases(tier, 'dt_on'), check_huge, 1500, 20000, candidates),
     Lane('sign_huge_off', lambda tier: huge_cases(tier, 'dt_off'), check_huge, 1000, 15000, candidates),
     Lane('sign_verylong_on', lambda tier: verylong_cases(tier, 'dt_on'), check, 120, 1500, candidates),
